@@ -886,6 +886,14 @@ func evalFunctionCall(node *jparse.FunctionCallNode, data reflect.Value, env *en
 		return undefined, newEvalError(ErrNonCallable, node.Func, nil)
 	}
 
+	// Built-in and extension functions are shared between
+	// evaluations. Give each call its own copy so that the
+	// name and context set below stay private to this call.
+	if c, ok := fn.(*goCallable); ok {
+		cc := *c
+		fn = &cc
+	}
+
 	simYield("call.setname", fn)
 	if setter, ok := fn.(nameSetter); ok {
 		if sym, ok := node.Func.(*jparse.VariableNode); ok {
